@@ -56,7 +56,7 @@ func init() {
 		Explanation: "ESP path simulation of rotate.Key and rotate.Bootstrap with summaries through their step helpers. " +
 			"R1 old key destroyed only in states with Finalize:ok; R2 Finalize only with Create:ok∧Sign:ok, SetPrimary only with Sign:ok; " +
 			"R3 no SetPrimary/Finalize/DestroyOld after any failed step; R4 nil return of Key ⇒ Create:ok∧Sign:ok∧Finalize:ok; " +
-			"R7 a nil return happens only after the old key was destroyed or the previous primary version name was found empty. R5 Bootstrap: Finalize only after both signing steps succeeded, nil return ⇒ Finalize:ok. R6 the newly created key (operand derived from CreateNewSigningKeyVersion) is never destroyed once Finalize succeeded. " +
+			"R7 a nil return happens only after the old key was destroyed or the previous primary version name was found empty. R5 Bootstrap: Finalize only after both signing steps succeeded, nil return ⇒ Finalize:ok. R6 the newly created key (operand derived from CreateNewSigningKeyVersion) is never destroyed once Finalize succeeded. R8 (shared with C11.R7) the storage-backed authority's certificate upload returns success after the gate only where the key version's manifest entry was found or appended, so a rotation retried after a fault cannot finalize a primary key that has no listed certificate. " +
 			"Every fault position of the property's quantifier is the :fail edge of one of the tracked calls; crash points between calls are covered by R1's ordering. " +
 			"Not covered: that the surviving state works (reload + sign), the later fault-free rotation, KMS/HSM behaviour.",
 		Assumptions: []string{"go/types, go/ssa, VTA call graph", "multierr.Combine/Append return nil iff all arguments are nil", "fmt.Errorf/errors.New return non-nil", "interface methods of ManagerInterface/CertificateAuthority are opaque events"},
@@ -72,6 +72,21 @@ func runC10(c *Ctx) {
 	signPrim := c.fn("R0", "sign/ops", "CreateCertificateFromTemplate")
 	if key == nil || boot == nil || signPrim == nil {
 		return
+	}
+	// R8: the storage-backed authority lists every certificate it uploads (shared with C11.R7): a
+	// rotation that is retried after a fault must not end with a primary key that has no listed certificate.
+	if fin := c.P.Method("sign/gcsca", "CertificateAuthority", "Finalize"); fin != nil {
+		storPkg := repoPath("storage/storagei")
+		wf := c.P.Func("storage/ops", "WriteFile")
+		gates := map[*ssa.Function]bool{}
+		for _, f := range c.funcsCalling(func(call ssa.CallInstruction) bool { return invokeIs(call, storPkg, "Client", "Exists") }) {
+			if load.RelPkg(f) == "sign/gcsca" && len(callsIn(f, func(call ssa.CallInstruction) bool {
+				return (wf != nil && call.Common().StaticCallee() == wf) || invokeIs(call, storPkg, "Client", "Writer")
+			})) > 0 {
+				gates[f] = true
+			}
+		}
+		c.uploadEntryRule("R8", gates, c.reachable([]*ssa.Function{fin}, nil))
 	}
 	sl := flow.NewSlicer(c.P)
 	isPSKV := func(v ssa.Value) bool {
